@@ -146,11 +146,11 @@ def run(prop, tier, seed):
             expected_cells=[(fl, 'roundtrip') for fl in FLAVOURS])
     items = []
     for fl in FLAVOURS:
-        items += list(c13_scenarios(fl, 3, 2) if tier == 'quick' else c13_scenarios(fl, 3, 3))
+        items += list(c13_scenarios(fl, 3, 3) if tier == 'quick' else c13_scenarios(fl, 3, 4))
     cells = sorted({str(c) for c, _ in items})
     return scenario_check(
         prop, tier, seed, items, evaluate_c13, sig_c13,
-        bounds={'node_list_length': 3, 'edge_list_length': 2 if tier == 'quick' else 3,
+        bounds={'node_list_length': 3, 'edge_list_length': 3 if tier == 'quick' else 4,
                 'declared_key_domain': [0, 1], 'endpoint_domain': [0, 1, 2],
                 'shapes': 'each list absent / present / replaced by an element the format reports as an error',
                 'symbolic': 'node values, edge values',
